@@ -252,6 +252,7 @@ struct Exec
 		for(size_t k = 0; k < plan.ops.size(); k++)
 		{
 			const Op& o = plan.ops[k];
+			ctx.on_thread(o.t, [&] {
 			ctx.begin_op((int) k);
 			if(o.kind == "fact")
 			{
@@ -290,6 +291,7 @@ struct Exec
 			}
 			else if(o.kind == "exhaustive")
 				exhaustive();
+			});
 		}
 		if(distinct >= 5)
 			ctx.sh->nontrivial = 1;
